@@ -173,6 +173,8 @@ pub fn run(ctx: &Ctx, rep: &mut Report) {
                         _ => Auth::AllBy(owner.clone()),
                     };
                     let target_fails = rng.chance(1, 6);
+                    // the target traps, or fails with one of its own contract error codes
+                    let fail_kind: u32 = rng.below(2) as u32;
                     let nargs = rng.usize(5);
                     let fname = if nargs == 1 && rng.chance(1, 2) { "g1".to_string() } else { format!("f{}", nargs) };
                     let mut pool = cands.clone();
@@ -184,6 +186,7 @@ pub fn run(ctx: &Ctx, rep: &mut Report) {
                         let t = ProbeTargetClient::new(env, &tg);
                         t.set_ret(&to_val(env, &r2));
                         t.set_fail(&target_fails);
+                        t.set_fail_kind(&fail_kind);
                     });
                     let class = if auth_class != "own" {
                         format!("execute-member-{}-auth", auth_class).replace("nobody-auth", "no-auth")
